@@ -45,8 +45,21 @@ func buildSession(g *Rng, specs []builderSpec, secret *big.Int, issig bool) *ses
 	}
 }
 
+var sessionCount int
+
 func buildSessionOnce(g *Rng, specs []builderSpec, secret *big.Int, issig bool) *session {
 	s := &session{ctx: g.bits(256), nonce: g.bits(128), issig: issig}
+	// the contexts deployments actually use are tiny (irmago always uses 1): half of the sessions
+	// run under 1, 0 or 2, so that their neighbours 0/1/2/3 are reached by the one-bit changes
+	switch sessionCount % 6 {
+	case 0, 3:
+		s.ctx = bi(1)
+	case 1:
+		s.ctx = bi(0)
+	case 4:
+		s.ctx = bi(2)
+	}
+	sessionCount++
 	var builders gabi.ProofBuilderList
 	for _, sp := range specs {
 		pk := sp.kp.pk
@@ -177,6 +190,14 @@ func genC02(g *Rng, tier string, emit func(Op)) {
 			emit(listOp(s.keys, s.trees, s.ctx, new(big.Int).Xor(s.nonce, new(big.Int).Lsh(bi(1), uint(g.intn(128)))), s.issig, nil, "nonce-bit", "reject"))
 		}
 		emit(listOp(s.keys, s.trees, g.bits(256), s.nonce, s.issig, nil, "context-random", "reject"))
+		for _, c := range []int64{0, 1, 2} {
+			if s.ctx.Cmp(bi(c)) != 0 {
+				emit(listOp(s.keys, s.trees, bi(c), s.nonce, s.issig, nil, "context-small", "reject"))
+			}
+		}
+		// the lowest bits
+		emit(listOp(s.keys, s.trees, new(big.Int).Xor(s.ctx, bi(1)), s.nonce, s.issig, nil, "context-bit", "reject"))
+		emit(listOp(s.keys, s.trees, s.ctx, new(big.Int).Xor(s.nonce, bi(1)), s.issig, nil, "nonce-bit", "reject"))
 		emit(listOp(s.keys, s.trees, s.ctx, g.bits(128), s.issig, nil, "nonce-random", "reject"))
 		emit(listOp(s.keys, s.trees, s.nonce, s.ctx, s.issig, nil, "context-nonce-swapped", "reject"))
 		// arbitrary changes include a flipped sign (the verifier's own values are arbitrary integers)
